@@ -129,6 +129,22 @@ pub fn run_intruder(plan: world::IntruderPlan) {
     let outer_panic = world::PANIC_INFO.with(|p| p.borrow_mut().take());
     let r = execute_once(gen, &image, plan.mode, false, false, None, false, &env);
     world::PANIC_INFO.with(|p| *p.borrow_mut() = outer_panic);
+    // (round 17) A second instance that was killed half-way through rewriting a file the first
+    // instance holds open for writing (both write the table file in place: control `s6`) leaves a
+    // file no single program is answerable for - what the first instance then completes is a
+    // mixture of two writers' bytes. That combination is not judged.
+    if r.crashed.is_some() {
+        let held: Vec<String> = outer
+            .inodes
+            .open
+            .iter()
+            .filter(|(_, c)| **c > 0)
+            .filter_map(|(i, _)| outer.inodes.names.get(i).cloned().flatten())
+            .collect();
+        if held.iter().any(|n| r.disk_after.files.get(n) != outer.written.get(n)) {
+            outer.company_ambiguous = true;
+        }
+    }
     // what the second instance did to the disk is what the first one finds when it goes on
     outer.written = r.disk_after.files.clone();
     for (k, v) in private {
